@@ -9,6 +9,8 @@ package main
 import (
 	"context"
 	"io"
+	"runtime"
+	"strings"
 	"sync"
 
 	"github.com/logrange/logrange/pkg/cursor"
@@ -22,6 +24,7 @@ import (
 type window struct {
 	mu     sync.Mutex
 	armed  bool
+	kind   string // "" : after the chunk iterator's io.EOF, inside the next Chunks() call; "count": right after the chunk selector has read a chunk's Count() for its status (getChunkStatus / rebuildChunkStatuses) - the count it decides by
 	src    string // journal the write goes to
 	eof    bool   // its chunk iterator has reported io.EOF during this page
 	fired  bool
@@ -37,9 +40,33 @@ func (w *window) onEOF(src string) {
 	w.mu.Unlock()
 }
 
+// onCount: the chunk selector has just read the count of a chunk of the journal (the value is on its way back)
+func (w *window) onCount(src string) {
+	w.mu.Lock()
+	if !(w.armed && w.kind == "count" && src == w.src && !w.fired) {
+		w.mu.Unlock()
+		return
+	}
+	caller := ""
+	if pc, _, _, ok := runtime.Caller(2); ok {
+		caller = runtime.FuncForPC(pc).Name()
+	}
+	if !(strings.HasSuffix(caller, "getChunkStatus") || strings.HasSuffix(caller, "rebuildChunkStatuses")) {
+		w.mu.Unlock()
+		return
+	}
+	w.fired = true
+	act := w.action
+	w.mu.Unlock()
+	err := act()
+	w.mu.Lock()
+	w.err = err
+	w.mu.Unlock()
+}
+
 func (w *window) onChunks(src string) {
 	w.mu.Lock()
-	fire := w.armed && src == w.src && w.eof && !w.fired
+	fire := w.armed && w.kind == "" && src == w.src && w.eof && !w.fired
 	if fire {
 		w.fired = true
 	}
@@ -99,6 +126,12 @@ func (cc *winCC) Chunks(ctx context.Context) (chunk.Chunks, error) {
 type winChunk struct {
 	chunk.Chunk
 	j *winJrnl
+}
+
+func (c *winChunk) Count() uint32 {
+	v := c.Chunk.Count()
+	c.j.w.onCount(c.j.Name())
+	return v
 }
 
 func (c *winChunk) Iterator() (chunk.Iterator, error) {
